@@ -17,7 +17,7 @@ def canon_outputs(system, y, used_model: dict):
     for var, arr in y.items():
         v = system.outputs()[var]
         arr = np.asarray(arr, dtype=float)
-        if used_model.get(owner[var]):        # only an explicit use_model returns raw values; a component without surrogate
+        if owner[var] in used_model:          # only an explicit use_model returns raw values; a component without surrogate
             out[var] = arr                    # evaluated through predict() converts its outputs to surrogate (normalised) form
         else:
             out[var] = np.asarray(v.denormalize(arr), dtype=float)
@@ -30,6 +30,7 @@ def run(ctx: Ctx):
     run_nan_listing(ctx)
     run_positional(ctx)
     run_rewire(ctx)
+    run_prefix_names(ctx)
 
 
 def run_main(ctx: Ctx):
@@ -150,7 +151,9 @@ def run_main(ctx: Ctx):
             np.random.seed(ctx.seed * 13 + n)
             system.fit(max_iter=rng.randint(3, 7), num_refine=10, max_tol=-1.0, update_bounds=False)
             xs = system.sample_inputs(3)
-            override = {s['name']: 'best' for s in spec if rng.random() < 0.4}
+            # per-component overrides, written as 'best', 'worst' or an explicit fidelity tuple (the empty tuple for a component without
+            # model fidelity is a legal, falsy value: use_model={c.name: c.max_alpha})
+            override = {s['name']: rng.choice(['best', 'worst', tuple(system[s['name']].max_alpha)]) for s in spec if rng.random() < 0.4}
             for um in (None, override):
                 try:
                     ysys = system.predict(xs, use_model=um)
@@ -160,7 +163,7 @@ def run_main(ctx: Ctx):
                 # manual chaining in the dependency (= construction) order, in physical units
                 pool = {k: np.asarray(system.inputs()[k].denormalize(v), dtype=float) for k, v in xs.items()}
                 for s, comp in zip(spec, system.components):
-                    if (um or {}).get(comp.name) or not comp.has_surrogate:
+                    if comp.name in (um or {}) or not comp.has_surrogate:
                         out = comp.call_model({v: pool[v] for v in s['inputs']})
                         for o in s['outputs']:
                             pool[o] = np.asarray(out[o], dtype=float)
@@ -268,6 +271,48 @@ def run_positional(ctx: Ctx):
                 if not systems.floats_close(y[k], v):
                     ctx.violate('C07:positional-arguments-misordered', f'listing {case["positional_listing"]}: {k} = {np.asarray(y[k]).tolist()}, '
                                 f'composition gives {v.tolist()}', case); break
+
+
+def run_prefix_names(ctx: Ctx):
+    """output names that are proper prefixes of other output names ('T' / 'T_in' / 'T_mid', 'P' / 'P_in'): every requested output is
+    computed (the early exit must compare whole names) and has the value of the exact composition, for all listings and target subsets"""
+    from amisc import Component, System, Variable
+    rng = ctx.rng
+    V = {n: Variable(n, domain=(-50, 50)) for n in ('T_in', 'P_in', 'T_mid', 'T', 'P')}
+    X = {n: Variable(n, domain=(0, 1)) for n in ('x0', 'x1', 'x2')}
+
+    def inlet(inputs):
+        x = np.asarray(inputs['x0'], dtype=float)
+        return {'T_in': 2.0 * x + 1.0, 'P_in': x * x - 0.5}
+
+    def heater(inputs):
+        return {'T_mid': 1.5 * np.asarray(inputs['T_in'], dtype=float) + np.asarray(inputs['x1'], dtype=float)}
+
+    def nozzle(inputs):
+        tm, pi, x2 = (np.asarray(inputs[k], dtype=float) for k in ('T_mid', 'P_in', 'x2'))
+        return {'T': tm - 2.0 * x2, 'P': pi * tm + x2}
+    outs = ['T_in', 'P_in', 'T_mid', 'T', 'P']
+    for n in range(ctx.pick(6, 40)):
+        order = rng.sample(range(3), 3)
+        mk = [lambda: Component(inlet, [X['x0']], [V['T_in'], V['P_in']], name='inlet', vectorized=True),
+              lambda: Component(heater, [V['T_in'], X['x1']], [V['T_mid']], name='heater', vectorized=True),
+              lambda: Component(nozzle, [V['T_mid'], V['P_in'], X['x2']], [V['T'], V['P']], name='nozzle', vectorized=True)]
+        system = System(*[mk[i]() for i in order], name='pn')
+        x = {k: np.array([rng.random(), rng.random()]) for k in ('x0', 'x1', 'x2')}
+        tin = 2.0 * x['x0'] + 1.0; pin = x['x0'] ** 2 - 0.5; tmid = 1.5 * tin + x['x1']
+        want = {'T_in': tin, 'P_in': pin, 'T_mid': tmid, 'T': tmid - 2.0 * x['x2'], 'P': pin * tmid + x['x2']}
+        targets = rng.sample(outs, rng.randint(1, 5)) if rng.random() < 0.85 else None
+        case = {'prefix_names': n, 'listing': order, 'targets': targets}
+        ctx.case(case, nontrivial=True, kind='prefix-names')
+        try:
+            y = system.predict(x, use_model='best', normalized_inputs=False, targets=targets)
+        except Exception as e:
+            ctx.violate('C07:predict-raises', f'{type(e).__name__}: {e}', case); continue
+        for t in (targets or outs):
+            if t not in y:
+                ctx.violate('C07:requested-output-missing', f'requested output {t!r} is missing from the result (returned: {sorted(y)})', case); break
+            if not systems.floats_close(y[t], want[t]):
+                ctx.violate('C07:wrong-value', f'output {t} = {np.asarray(y[t]).tolist()}, exact composition {want[t].tolist()}', case); break
 
 
 def run_rewire(ctx: Ctx):
